@@ -61,6 +61,7 @@ uint64_t param(const char* name, uint64_t dflt); // numeric run parameter (tier 
 [[noreturn]] void pass_now();
 void label(const char* name);       // counts once per case
 void nontrivial();                  // case satisfies the property's non-triviality rule
+void count(const char* name, uint64_t n); // adds n to a named per-case counter (summed over the campaign)
 void fp(uint64_t h);                // feed the case fingerprint
 bool want_desc();
 void desc(const char* fmt, ...) __attribute__((format(printf, 1, 2))); // append to the case description
